@@ -5,6 +5,14 @@ import GoZero.C17.Spec
 import GoZero.C17.Std
 namespace GoZero.C17
 
+/-- evaluate the unmarshaller on a concrete (type, document) pair (the mutual block is defined by well-founded
+recursion, so `decide` cannot unfold it; `simp` with the equation lemmas can). -/
+macro "c17_eval" : tactic => `(tactic|
+  simp [unmarshalWith, unmarshalJson, unmarshalStruct, withValue, withoutValue, fillSlice, sliceElems, genMap,
+    JM.get?, FMeta.tagKey, Except.map, lower, lowerC, fillPrim, fromStrPrim, primField, convFromString, parseInt?,
+    parseNat?, digitsVal, digit?, intInRange, uintInRange, confOpts, getValue, splitDots, splitDotsAux, JL.isNil,
+    fromArrayAdj, Ty.isSlice, FMeta.hasExt, FMeta.hasOpts, Ty.prim?, envLookup, loadJsonDet, loadJson, loadJsonO, loadTree, loadTreeO, loadTreeWith, loadTreeWithO, parseFloat, chainLookup, chainKeys, structRequired, zeroOf, zeroFields, sliceElemPrim, mapElemPrim])
+
 /-! ### lower-casing -/
 
 theorem lowerC_toNat (c : Char) (h : 65 ≤ c.toNat ∧ c.toNat ≤ 90) : (lowerC c).toNat = c.toNat + 32 := by
